@@ -268,7 +268,7 @@ pub fn run(cfg: &Config) -> i32 {
     require_binaries(cfg);
     let tmp = scratch_dir(cfg, "c20");
     let budget = Duration::from_secs_f64(cfg.pick(35.0, 300.0) * cfg.scale);
-    let stats = parallel(cfg, "main", cfg.scaled(cfg.pick(1500, 500_000)), budget, |idx, r, st| case(cfg, &tmp, idx, r, st));
+    let stats = parallel(cfg, "main", cfg.scaled(cfg.pick(4000, 500_000)), budget, |idx, r, st| case(cfg, &tmp, idx, r, st));
     let _ = std::fs::remove_dir_all(&tmp);
     finish(
         cfg,
